@@ -170,8 +170,9 @@ def coq_case(case, obs):
               (cbool(s["leader_before"]), RES[s["res"]], cbool(s["names_leader"]), coq_snap(s["snap"]),
                clist([cZ(x) for x in s["led"]])))
         tr.append(cpair(coq_op(o), ob))
-    if len(steps) != len(case["ops"]):  # a panic mid-history: make the case disagree visibly
-        return "(CHist %s %s [])" % (cstr(case["id"]), cZ(-1))
+    if len(steps) != len(case["ops"]):
+        # a panic mid-history: emit a case the model cannot agree with (GetShardID "" 1 = 0, never a panic)
+        return '(CHash "" 1 None None)'
     return "(CHist %s %s %s)" % (cstr(case["id"]), cZ(case["n"]), clist(tr))
 
 
